@@ -4,6 +4,7 @@ package main
 
 import (
 	"fmt"
+	"go/ast"
 	"go/token"
 	"go/types"
 	"sort"
@@ -337,6 +338,13 @@ func (c *Ctx) ownership(r *Report, rule, structName, field string, allowed map[s
 			// reading cannot break what the owners establish: a function outside the compiler that only indexes,
 			// measures or ranges over the field (a listing, a lookup) needs no entry in the table
 			r.ok(rule, key, "[read] — confined read-only access outside the compiler (not reachable from parse; the value is only indexed, measured or ranged over)")
+		} else if structName == "token" && field == "pos" && len(kinds) == 1 && kinds[0] == "read" && c.posOnlyForWrite(fn) {
+			// an emitter that writes its bytes itself: the position of the previous token handed to Prog.write
+			r.ok(rule, key, "[read] — p.prev.pos, only as the position argument of Prog.write")
+		} else if why, ok := c.windowMethod(fn, structName); ok {
+			// the lexer's window kept in a struct of its own: its methods are the window's interface; what matters is
+			// who calls them
+			r.ok(rule, key, fmt.Sprintf("%v — %s", kinds, why))
 		} else if parent, isLit := litParent(fn); isLit && ownerOrHelper(c, parent, allowed) {
 			// a function literal written in the body of an owner is that owner's code
 			r.ok(rule, key, fmt.Sprintf("%v — function literal inside %s", kinds, parent))
@@ -754,4 +762,88 @@ func (c *Ctx) compilerReach() map[string]bool {
 	}
 	c.memoTab["compilerReach"] = out
 	return out
+}
+
+// windowMethod: fn is a method of the struct that holds the lexer's window (not of the lexer itself), and every
+// caller of it is one of the lexer's primitives or another method of that struct — state functions do not reach it.
+func (c *Ctx) windowMethod(fn, structName string) (string, bool) {
+	if structName != "lexer" {
+		return "", false
+	}
+	la := c.lexAliasTable()
+	if la == nil || len(la.holders) == 0 {
+		return "", false
+	}
+	i := strings.IndexByte(fn, '.')
+	if i < 0 {
+		return "", false
+	}
+	// by raw receiver name: aliased methods are reported as lexer.<name>
+	isHolder := func(name string) bool {
+		for _, it := range c.sortedDecls() {
+			f, ok := it.obj.(*types.Func)
+			if !ok || funcName(f) != name {
+				continue
+			}
+			sig := f.Type().(*types.Signature)
+			if sig.Recv() == nil {
+				return false
+			}
+			n, isN := derefType(sig.Recv().Type()).(*types.Named)
+			return isN && la.holders[n.Obj().Name()]
+		}
+		return false
+	}
+	if !isHolder(fn) {
+		return "", false
+	}
+	prims := map[string]bool{}
+	for _, owners := range lexerOwners {
+		for o := range owners {
+			prims[o] = true
+		}
+	}
+	callers, valueUse := c.callersByName()
+	if valueUse[fn] {
+		return "", false
+	}
+	for caller := range callers[fn] {
+		if !prims[caller] && !isHolder(caller) {
+			return "", false
+		}
+	}
+	return "method of the window struct, called only by the lexer's primitives", true
+}
+
+// posOnlyForWrite: every use of a token's pos in fn is `p.prev.pos` as the
+// position argument of Prog.write.
+func (c *Ctx) posOnlyForWrite(fn string) bool {
+	_, fd := c.find(fn)
+	if fd == nil || fd.Body == nil {
+		return false
+	}
+	okUse := map[ast.Expr]bool{}
+	n, bad := 0, false
+	ast.Inspect(fd.Body, func(nd ast.Node) bool {
+		switch x := nd.(type) {
+		case *ast.FuncLit:
+			return false
+		case *ast.CallExpr:
+			if c.calleeName(x) == "Prog.write" && len(x.Args) == 2 && c.fieldPath(x.Args[1]) == "<parser>.prev.pos" {
+				okUse[stripParens(x.Args[1])] = true
+			}
+		case *ast.SelectorExpr:
+			if x.Sel.Name != "pos" {
+				return true
+			}
+			if s, ok := c.infoFor(x).Selections[x]; ok && s.Kind() == types.FieldVal && isNamed(derefType(s.Recv()), bclPath, "token") {
+				n++
+				if !okUse[x] {
+					bad = true
+				}
+			}
+		}
+		return true
+	})
+	return n > 0 && !bad
 }
